@@ -580,3 +580,10 @@ T('C15', 'twin-ts-cleared-value-isarray-and-reordered', TSDEC,
   "  if (value instanceof Array) {", "  if (Array.isArray(value)) {")
 T('C15', 'twin-ts-cleared-value-null-first', TSDEC,
   "  } else if (value === null || valueIn(typeof value, ['number', 'boolean'])) {", "  } else if (value === null || typeof value === 'number' || typeof value === 'boolean') {")
+
+# R03.10
+M('C03', 'attachments-looked-up-before-ops', STR, '            base = attachments.get(key)\n', '            base = attachments[key]\n', 'R03.10')
+M('C03', 'outputs-indexed-at-insertion-point', STR, 'outputs[key] if key < len(outputs) else None', 'outputs[key] if outputs else None', 'R03.10')
+M('C03', 'clear-on-optional-metadata-flag', MNB, '        "/cells/*/cell_type": "fail",\n', '        "/cells/*/cell_type": "fail",\n        "/cells/*/metadata/collapsed": "clear",\n', 'R03.10')
+T('C03', 'twin-outputs-bound-written-other-way', STR, 'outputs[key] if key < len(outputs) else None', 'outputs[key] if len(outputs) > key else None')
+T('C03', 'twin-attachments-guarded-lookup', STR, '            base = attachments.get(key)\n', '            base = attachments[key] if key in attachments else None\n')
